@@ -41,8 +41,11 @@ func genE2ETail(r *rand.Rand) e2eCase {
 	if r.Intn(10) < 6 {
 		c.Shape = "grouped"
 		ex.Projs = []jproj{{Bind: "?s"}, {Bind: "?x", Alias: "?n", Op: "count"}, {Bind: "?x", Alias: "?t", Op: "sum"}}
-		if r.Intn(3) == 0 {
+		switch r.Intn(4) {
+		case 0:
 			ex.Projs[0].Alias = "?who"
+		case 1:
+			ex.Projs[0].Alias = "?x" // NAME COLLISION: the alias shadows the aggregated pattern binding
 		}
 		if r.Intn(3) == 0 {
 			ex.Projs = append(ex.Projs, jproj{Bind: "?x", Alias: "?d", Op: "count", Distinct: true})
@@ -55,8 +58,11 @@ func genE2ETail(r *rand.Rand) e2eCase {
 	} else {
 		c.Shape = "plain"
 		ex.Projs = []jproj{{Bind: "?s"}, {Bind: "?x"}}
-		if r.Intn(3) == 0 {
+		switch r.Intn(4) {
+		case 0:
 			ex.Projs[1].Alias = "?val"
+		case 1:
+			ex.Projs = []jproj{{Bind: "?x", Alias: "?val"}, {Bind: "?s", Alias: "?x"}} // the alias ?x shadows the binding ?x
 		}
 	}
 	var ps []string
